@@ -351,12 +351,47 @@ def r2_relations(ctx):
               if isinstance(st, ast.Assign) and isinstance(
                   st.targets[0], ast.Subscript)
               and norm(st.targets[0].value) == segv]
-    ok = len(zeros) == 1 and len(stores) == 1 and isinstance(
-        stores[0].targets[0].slice, ast.Slice) and \
-        stores[0].targets[0].slice.upper is None and \
-        stores[0].targets[0].slice.lower is not None and \
-        literal(stores[0].value) == 1
-    ctx.check(ok, f, "segment = zeros, then ones from the turning point on",
+    if not zeros and not stores:
+        # segment = (np.arange(len(apret)) >= idturn).astype(np.uint8)
+        v = ws[0].value
+        if isinstance(v, ast.Name):
+            v = R.reaching_value(v) or v
+        cmp_ = None
+        if isinstance(v, ast.Call) and isinstance(
+                v.func, ast.Attribute) and v.func.attr == "astype":
+            cmp_ = v.func.value
+            if isinstance(cmp_, ast.Name):
+                cmp_ = R.reaching_value(cmp_) or cmp_
+        ar = thr = None
+        if isinstance(cmp_, ast.Compare) and len(cmp_.ops) == 1:
+            if isinstance(cmp_.ops[0], ast.GtE):
+                ar, thr = cmp_.left, cmp_.comparators[0]
+            elif isinstance(cmp_.ops[0], ast.LtE):
+                thr, ar = cmp_.left, cmp_.comparators[0]
+        if not (isinstance(ar, ast.Call) and call_name(ar) == "np.arange"
+                and len(ar.args) == 1 and not ar.keywords):
+            raise Undecided("correct_split_approach_retract: the "
+                            "construction of the segment column is not "
+                            "understood")
+        tp = [c for c in calls_in(f) if call_name(c) == "find_turning_point"]
+        ctx.check(bool(tp) and norm(thr) == "idturn", f,
+                  "switch at the turning point",
+                  "the switch is not at the computed turning point")
+        ctx.check(norm(ar.args[0]) in ("len(apret)", "len(apret['force'])",
+                                       "len(force)", "force.size",
+                                       "apret['force'].size"), f,
+                  "segment has the length of the curve",
+                  "segment column has a different length")
+        ok = None
+    else:
+        ok = len(zeros) == 1 and len(stores) == 1 and isinstance(
+            stores[0].targets[0].slice, ast.Slice) and \
+            stores[0].targets[0].slice.upper is None and \
+            stores[0].targets[0].slice.lower is not None and \
+            literal(stores[0].value) == 1
+    if ok is not None:
+        ctx.check(
+            ok, f, "segment = zeros, then ones from the turning point on",
               "the segment column is not zeros with a single suffix of "
               "ones (more than one approach/retract switch, or reversed)")
     if ok:
